@@ -218,6 +218,13 @@ func runProperty(p *Program, id, tier string, seed int, findings []*finding) *pr
 			roots[k] = true
 		}
 	}
+	// every function assumes the global invariants: the initialisers that establish them are always
+	// part of the check (tagged ones decide the property directly, the others support it)
+	for _, gi := range p.contracts.ginvs {
+		if k := shortPkg(gi.Pkg) + ".init"; p.funcs[k] != nil {
+			roots[k] = true
+		}
+	}
 	var stale []string
 	for k := range p.contracts.byKey {
 		if p.funcs[k] == nil {
@@ -231,6 +238,7 @@ func runProperty(p *Program, id, tier string, seed int, findings []*finding) *pr
 	var order []string
 	work := sortedKeys(roots)
 	var engineErrs []string
+	genFail := map[string]string{}
 	for len(work) > 0 {
 		k := work[0]
 		work = work[1:]
@@ -250,8 +258,11 @@ func runProperty(p *Program, id, tier string, seed int, findings []*finding) *pr
 		}
 		vc := newVC(p, f)
 		if err := vc.run(); err != nil {
-			engineErrs = append(engineErrs, err.Error())
+			// the contract no longer fits the function, or the function left the supported subset: every
+			// obligation of this function was generated on the unchanged tree and cannot be any more
+			genFail[k] = err.Error()
 			vcs[k] = nil
+			skipped[k] = true
 			continue
 		}
 		vcs[k] = vc
@@ -389,6 +400,20 @@ func runProperty(p *Program, id, tier string, seed int, findings []*finding) *pr
 			}
 		}
 	}
+	gfKeys := map[string]bool{}
+	for k := range genFail {
+		gfKeys[k] = true
+	}
+	for _, k := range sortedKeys(gfKeys) {
+		violations++
+		dir := filepath.Join(outDir("replays"), id)
+		os.MkdirAll(dir, 0o755)
+		path := filepath.Join(dir, sanitize(k)+".vcgen.json")
+		data, _ := json.MarshalIndent(map[string]string{"property": id, "obligation": k + "#vcgen", "reason": "the obligations of this function could be generated on the unchanged tree and cannot be generated now: " + genFail[k], "replay_status": "no-failing-input-found"}, "", " ")
+		os.WriteFile(path, data, 0o644)
+		violLines = append(violLines, fmt.Sprintf("VIOLATION property=%s replay=%s obligation=%s#vcgen status=undecidable (%s) no-failing-input-found", id, path, k, trunc(genFail[k], 160)))
+	}
+	res.ev.Coverage["functions_whose_obligations_cannot_be_generated"] = genFail
 	for _, s := range stale {
 		violations++
 		rp := writeStaleReplay(id, s)
@@ -428,6 +453,7 @@ func runProperty(p *Program, id, tier string, seed int, findings []*finding) *pr
 		for c := range vc.calleesNoContract {
 			noContract[c] = true
 		}
+		supportNotes = append(supportNotes, vc.notes...)
 	}
 	for k, vc := range vcs {
 		if vc == nil && !skipped[k] {
@@ -463,6 +489,15 @@ func runProperty(p *Program, id, tier string, seed int, findings []*finding) *pr
 		violations += v
 	}
 	_ = nKnownBefore
+	if isBounded(id) {
+		res.ev.Level = "exploration"
+		bv, bk, bn := runBounded(id, tier, seed, findings, res)
+		violLines = append(violLines, bv...)
+		knownLines = append(knownLines, bk...)
+		supportNotes = append(supportNotes, bn...)
+		violations += len(bv)
+		cov["explanation"] = "the property quantifies over all programs: it is decided by the bounded harness (labelled bounded, never counted as proved); the discharged obligations listed here are the per-function contracts the property rests on (code emission and back-patching, the machine's jump, iteration and case steps, iteration contracts of the objects)"
+	}
 	cov["known_findings"] = knownLines
 	as := sortedKeys(assume)
 	as = append(as, propertyAssumptions(id)...)
@@ -491,7 +526,7 @@ func runProperty(p *Program, id, tier string, seed int, findings []*finding) *pr
 	for _, l := range violLines {
 		fmt.Println(l)
 	}
-	if len(jobs) == 0 && cov["structural_obligations"] == nil {
+	if len(jobs) == 0 && cov["structural_obligations"] == nil && !isBounded(id) {
 		res.engineErr = "no obligation generated for " + id + " (vacuous check)"
 	}
 	if len(engineErrs) > 0 {
